@@ -1,3 +1,4 @@
+import subprocess
 """C01 — degree-preserving rewiring keeps every node's degree and the weight multiset."""
 import sys
 from common import *  # noqa
@@ -55,6 +56,13 @@ def main():
     ok = ck.lean_gate(['BctVerif.Props.C01', 'BctVerif.Props.C01Kernel', 'BctVerif.Props.C01RandBin'],
                       extra_modules=['BctVerif.Model.Rewire', 'BctVerif.Model.Kernel', 'BctVerif.Model.RandBin'])
     ck.lean_gate([], gen_modules=['BctVerif.Gen.Kernels', 'BctVerif.Gen.CoresPinRewire'])
+    if ck.tier == 'thorough':
+        # translator self-test (every listed mutant must fail its obligation, every listed harmless edit must pass)
+        st_ = subprocess.run(['/venv/bin/python', os.path.join(VERIF, 'translate', 'kernels_selftest.py')], capture_output=True, text=True, timeout=3000,
+                             env=dict(os.environ, BCT_LEAN=LEAN, BCT_REPO=REPO))
+        ck.cov['translator_selftest'] = (st_.stdout.strip().split('\n') or [''])[-1][:200]
+        if st_.returncode != 0:
+            ck.corr_break('kernel translator self-test (translate/kernels_selftest.py)', (st_.stdout + st_.stderr)[-600:])
     if ck.tier == 'thorough' and ok:
         ck.leanchecker(['BctVerif.Props.C01', 'BctVerif.Props.C01Kernel', 'BctVerif.Props.C01RandBin', 'BctVerif.Model.Rewire', 'BctVerif.Model.Kernel', 'BctVerif.Model.RandBin', 'BctVerif.Gen.Kernels'])
     if ck.replay:
